@@ -3,6 +3,8 @@ import Bec2Verif.Lemmas.Cbc
 import Bec2Verif.Model.Modes
 import Bec2Verif.Lemmas.AesKeySched
 import Bec2Verif.Lemmas.Frame
+import Bec2Verif.Lemmas.Ctr
+import Bec2Verif.Lemmas.Cfb
 import Bec2Verif.Lemmas.Adapter
 /-!
 # C16 — bundled AES tables = GF(2^8) definitions; adapter = pure zero-padded CBC; stream modes split-independent
@@ -133,6 +135,33 @@ theorem ofbLoop_append (B : BlockCipher) (k : B.K) (a b reg rem out : Bytes) :
       | cons x xs =>
         simp only [List.cons_append, Modes.ofbLoop, List.isEmpty_cons, Bool.false_eq_true, if_false]
         exact ih _ _ _
+
+/-! ### CTR and CFB -/
+
+/-- **CTR (SP 800-38A §6.5)**: a call XORs the data with what is left of the previous key-stream block followed by
+`E(T) ‖ E(T+1) ‖ …` (`T` the current counter block; the counter is a 128-bit big-endian integer that wraps), keeps the
+unused rest and advances the counter by the number of blocks drawn -/
+theorem ctr_call (B : BlockCipher) (hlen : ∀ key b, (B.enc key b).length = 16) (s : Modes.St B) (hk : s.kind = .ctr)
+    (dec : Bool) (data : Bytes) :
+    Modes.step B s dec data =
+      .ok ({ s with rem := (s.rem ++ Modes.ks B s.key (Modes.blocksFor data.length s.rem.length) s.counter).drop data.length,
+                    counter := Modes.incN (Modes.blocksFor data.length s.rem.length) s.counter },
+           xorBytes data (s.rem ++ Modes.ks B s.key (Modes.blocksFor data.length s.rem.length) s.counter)) :=
+  Modes.step_ctr B hlen s hk dec data
+
+/-- CTR: output and state do not depend on how the input is split across calls (any split point) -/
+theorem ctr_split_independent (B : BlockCipher) (hlen : ∀ key b, (B.enc key b).length = 16) (s : Modes.St B)
+    (hk : s.kind = .ctr) (dec : Bool) (a b : Bytes) :
+    Modes.step B s dec (a ++ b) =
+      (Modes.step B s dec a >>= fun (s1, o1) => Modes.step B s1 dec b >>= fun (s2, o2) => .ok (s2, o1 ++ o2)) :=
+  Modes.ctr_split B hlen s hk dec a b
+
+/-- CFB with any segment size: output and shift register do not depend on how the input is split at segment boundaries -/
+theorem cfb_split_independent (B : BlockCipher) (seg : Nat) (hseg : 0 < seg) (s : Modes.St B) (hk : s.kind = .cfb seg)
+    (hreg : s.listReg = false) (dec : Bool) (a b : Bytes) (n m : Nat) (ha : a.length = n * seg) (hb : b.length = m * seg) :
+    Modes.step B s dec (a ++ b) =
+      (Modes.step B s dec a >>= fun (s1, o1) => Modes.step B s1 dec b >>= fun (s2, o2) => .ok (s2, o1 ++ o2)) :=
+  Modes.cfb_split B seg hseg s hk hreg dec a b n m ha hb
 
 /-- the regenerated constants of `crypto.AES128` -/
 theorem consts_pinned : Gen.AES_BLOCK_SIZE = 16 ∧ Gen.AES_KEY_SIZE = 16 := by decide
